@@ -171,6 +171,27 @@ def main(argv):
         json.dump(doc, open(os.path.join(HERE, vpath), "w"), indent=1, default=str)
         violations.append((gname, vpath, reproduced))
 
+    # bounded stand-ins for units outside the verifier's reach (labelled bounded, never counted as proved)
+    bounded_report = []
+    for b in cfg.get("bounded", []):
+        outp = os.path.join(HERE, "replays", "%s-bounded-%s.json" % (prop, hashlib.sha256(b["unit"].encode()).hexdigest()[:8]))
+        env = dict(os.environ, PYTHONPATH=REPO)
+        try:
+            subprocess.run(["/venv/bin/python", os.path.join(HERE, "replay", b["script"]), "--search", "--out", outp], env=env,
+                           cwd=os.path.join(HERE, "replay"), capture_output=True, text=True, timeout=600)
+            r = json.load(open(outp))
+        except Exception as e:
+            r = {"found": False, "harness_error": repr(e)}
+        bounded_report.append({"unit": b["unit"], "bound": b["bound"], "programs_tried": r.get("tried"), "mismatch_found": bool(r.get("found")),
+                               "harness_errors": r.get("harness_errors"), "labelled": "bounded -- not counted in obligations/discharged"})
+        if r.get("harness_error") or r.get("harness_errors"):
+            undecided.append("bounded stand-in for %s could not run: %s" % (b["unit"], r.get("harness_error") or r.get("harness_errors")))
+        elif r.get("found"):
+            doc = {"property": prop, "failed_obligation": "bounded stand-in for %s: the real code disagrees with the reference" % b["unit"],
+                   "replay": r, "program": r.get("program"), "how_to_replay": "PYTHONPATH=%s /venv/bin/python %s/replay/%s --scenario <this file>" % (REPO, HERE, b["script"])}
+            json.dump(doc, open(outp, "w"), indent=1, default=str)
+            violations.append(("bounded:" + b["unit"], os.path.relpath(outp, HERE), True))
+
     for k, gname in known_hits:
         print("KNOWN-FINDING: property=%s %s [%s]" % (prop, k["what"], gname))
     for gname, vpath, reproduced in violations:
@@ -197,6 +218,7 @@ def main(argv):
             "solver_time_s": round(sum(r.get("ms", 0) for _, _, r in all_obls) / 1000.0, 1),
             "samples": [o.name for _, o, _ in all_obls[:: max(1, len(all_obls) // 12)]][:12],
             "guards": guard_report,
+            "bounded": bounded_report,
             "failed_obligation_classes": sorted(groups),
             "known_findings_matched": [g for _, g in known_hits],
             "explanation": cfg.get("explanation", "every obligation listed is a verification condition generated from the current source "
